@@ -69,6 +69,14 @@ def parseU64 (s : String) : Option Nat :=
 def channelOk (ch : String) : Bool :=
   ch.startsWith "channel-" && (parseU64 (String.ofList (ch.toList.drop 8))).isSome
 
+/-- `opt.as_ref().map(|a| validate_address(a, prefix)).transpose()` -/
+def optAddress (o : Option String) (pref : String) : R (Option String) :=
+  match o with
+  | none => .ok none
+  | some a => match validateAddress a pref with
+    | .ok v => .ok (some v)
+    | .error e => .error e
+
 def UnsafeNative.validate (c : UnsafeNative) : R NativeCfg := do
   let ap ← validatePrefix c.accountPrefix
   let vp ← validatePrefix c.validatorPrefix
@@ -80,18 +88,14 @@ def UnsafeNative.validate (c : UnsafeNative) : R NativeCfg := do
          unbondingPeriod := c.unbondingPeriod, staker := staker, rewardCollector := rc }
 
 def UnsafeProto.validate (c : UnsafeProto) : R ProtoCfg := do
-  if !(channelOk c.channel) then throw .ibcChannelConfigWrong
+  ensure (channelOk c.channel) .ibcChannelConfigWrong
   let ap ← validatePrefix c.accountPrefix
   let den ← validateIbcDenom c.ibcDenom
-  let oracle ← match c.oracle with
-    | none => pure none
-    | some a => do let v ← validateAddress a c.accountPrefix; pure (some v)
+  let oracle ← optAddress c.oracle c.accountPrefix
   pure { accountPrefix := ap, channel := c.channel, ibcDenom := den, minStake := c.minStake, oracle := oracle }
 
 def UnsafeFee.validate (c : UnsafeFee) (p : ProtoCfg) : R FeeCfg := do
-  let t ← match c.treasury with
-    | none => pure none
-    | some a => do let v ← validateAddress a p.accountPrefix; pure (some v)
+  let t ← optAddress c.treasury p.accountPrefix
   pure { fee := c.fee, treasury := t }
 
 /-- `addess_hash(typ, key)` = SHA-256(SHA-256(typ) ++ key) -/
